@@ -72,6 +72,8 @@ func c02Kinds(seed int64) []unitKind {
 		{Name: "pes-unbounded", Make: func(_, _ int) SUnit { return PESUnit(0x100, 0xe0, pesPayload(12, 500, seed), 1, false) }},
 		{Name: "pes-start-code-lookalikes", Make: func(_, _ int) SUnit { return PESUnit(0x100, 0xe0, hostilePayload(0, 430), 3, false) }},
 		{Name: "pes-bounded-start-code-lookalikes", Make: func(_, _ int) SUnit { return PESUnit(0x101, 0xc0, hostilePayload(4, 300), 4, true) }},
+		{Name: "pes-unbounded-ff-ends", Make: func(_, _ int) SUnit { return PESUnit(0x100, 0xe0, hostilePayload(9, 400), 5, false) }},
+		{Name: "pes-unbounded-all-ff", Make: func(_, _ int) SUnit { return PESUnit(0x100, 0xe0, hostilePayload(10, 250), 6, false) }},
 		{Name: "pes-with-af", Make: func(_, _ int) SUnit {
 			u := PESUnit(0x100, 0xe0, pesPayload(13, 380, seed), 2, false)
 			u.AF = &ref.AF{RAI: true, PCR: &ref.PCR{Base: 0x1_ffff_ffff, Ext: 0x1ff}, HasPrivate: true, Private: []byte{9, 8, 7}}
